@@ -13,6 +13,7 @@ import (
 
 	"verif/internal/enum"
 	"verif/internal/fw"
+	"verif/internal/ref/rfc6962"
 	"verif/internal/tlogx"
 )
 
@@ -209,22 +210,64 @@ func treeCase(n int64, h tlog.Hash, extra string) string {
 	return ""
 }
 
-var textAlpha = []string{"a", " ", "\n", "é", "\x01", "\xff"}
+var textAlpha = []string{"a", " ", "\n", "é", "\x01", "\xff", "\ufffd"}
 
 func Run(r *fw.Run) {
 	N := r.Pick(1500, 8000)
 	nSmall := r.Pick(160, 320)
-	Lt := r.Pick(7, 8)
+	Lt := r.Pick(6, 7)
 	r.Bounds["records"] = N
 	r.Bounds["all_prefix_tree_hashes_up_to"] = nSmall
 	r.Bounds["coord_levels"] = 20
 	r.Bounds["coord_offsets"] = 4096
-	r.Bounds["record_text_alphabet"] = []string{"a", "space", "\\n", "é", "0x01", "0xFF"}
+	r.Bounds["record_text_alphabet"] = []string{"a", "space", "\\n", "é", "0x01", "0xFF", "U+FFFD (validly encoded)"}
 	r.Bounds["record_text_max_len"] = Lt
 	r.Rule = "histories: append records one at a time (3 content patterns), state = log after n appends, every stored position / prefix tree hash compared with the RFC 6962 reference on the record list; coordinates: all (level<=20, offset<=4096) and boundary offsets up to index 2^60; encodings: all record texts over a 6-symbol alphabet x ids x tails, tree heads over sizes x hash patterns. non-trivial = stored position verified / accepted record text"
 	r.Assume = []string{"SHA-256 as implemented by the Go standard library", "reference MTH (internal/ref/rfc6962)"}
 	fw.Parallel(3, func(pat int) { history(r, pat, N, nSmall) })
 	r.Sample(map[string]any{"kind": "layout", "position": 10, "coordinates": fmt.Sprint(tlog.SplitStoredHashIndex(10)), "count_for_7_records": tlog.StoredHashCount(7)})
+
+	// record lengths: the leaf hash is SHA-256(0x00 || data) for every length (block boundaries, buffers)
+	{
+		l := fw.NewLocal()
+		var lens []int
+		for n := 0; n <= 1100; n++ {
+			lens = append(lens, n)
+		}
+		for _, p := range []int{1 << 11, 1 << 12, 1 << 13, 1 << 15, 1 << 16, 1 << 20} {
+			lens = append(lens, p-1, p, p+1)
+		}
+		r.Bounds["record_lengths"] = "0..1100 and 2^k-1, 2^k, 2^k+1 for k in {11,12,13,15,16,20}"
+		buf := make([]byte, 1<<20+2)
+		for i := range buf {
+			buf[i] = byte(i*131 + i>>8)
+		}
+		for _, n := range lens {
+			l.States++
+			l.Execs++
+			got := tlog.RecordHash(buf[:n])
+			if want := tlog.Hash(rfc6962.Leaf(buf[:n])); got != want {
+				r.Violation(fmt.Sprintf("recordhash:%d", n), fmt.Sprintf("RecordHash of a %d-byte record is not SHA-256(0x00 || data)", n), caseT{Kind: "recordhash", N: int64(n)})
+			}
+			// two records differing only in the last byte must not collide
+			if n > 0 {
+				alt := append([]byte(nil), buf[:n]...)
+				alt[n-1] ^= 1
+				if tlog.RecordHash(alt) == got {
+					r.Violation(fmt.Sprintf("recordhash-collide:%d", n), fmt.Sprintf("two %d-byte records differing in the last byte have the same RecordHash", n), caseT{Kind: "recordhash", N: int64(n)})
+				}
+			}
+			l.Nontrivial++
+		}
+		var a, b tlog.Hash
+		for i := range a {
+			a[i], b[i] = byte(i), byte(255-i)
+		}
+		if tlog.NodeHash(a, b) != tlog.Hash(rfc6962.Node(a, b)) || tlog.NodeHash(a, b) == tlog.NodeHash(b, a) {
+			r.Violation("nodehash", "NodeHash is not SHA-256(0x01 || left || right)", caseT{Kind: "recordhash"})
+		}
+		r.Merge(l)
+	}
 
 	// coordinates beyond stored logs
 	fw.Parallel(21, func(lev int) {
@@ -333,6 +376,8 @@ func Replay(r *fw.Run, raw json.RawMessage) {
 			n = 1
 		}
 		history(r, c.Pattern, n+1, n+1)
+	case "recordhash":
+		r.Note("record-hash cases are re-run by the full check")
 	case "coord":
 		r.Execs.Add(1)
 		if msg := coordCase(c.Level, c.M); msg != "" {
